@@ -80,6 +80,8 @@ type SmtpRun struct {
 	Closes    int
 	Panic     interface{}
 	CheckErr  *mail.SendError
+	// APIProblems: the other accessors of a message's SendError disagree with the ones compared with the model
+	APIProblems []string
 }
 
 func errTag(err error) string {
@@ -342,6 +344,23 @@ func RunScenario(sc *SmtpScenario) (run *SmtpRun, msgs []*mail.Msg) {
 			r.Code = e.ErrorCode()
 			r.ESC = e.EnhancedStatusCode()
 			r.Rcpts, r.NErrs = mail.VerifSendErrorDetails(e)
+			if m.SendErrorIsTemp() != e.IsTemp() {
+				run.APIProblems = append(run.APIProblems, fmt.Sprintf("message %d: Msg.SendErrorIsTemp()=%v, SendError.IsTemp()=%v", i, m.SendErrorIsTemp(), e.IsTemp()))
+			}
+			if e.Msg() != m {
+				run.APIProblems = append(run.APIProblems, fmt.Sprintf("message %d: SendError.Msg() is not the message the error is attached to", i))
+			}
+			if e.MessageID() != m.GetMessageID() {
+				run.APIProblems = append(run.APIProblems, fmt.Sprintf("message %d: SendError.MessageID()=%q, the message has %q", i, e.MessageID(), m.GetMessageID()))
+			}
+			if errors.Is(m.SendError(), &mail.SendError{Reason: e.Reason}) != !e.IsTemp() {
+				run.APIProblems = append(run.APIProblems, fmt.Sprintf("message %d: errors.Is(err, &SendError{Reason: %v}) = %v for an error with IsTemp()=%v", i, e.Reason, !(!e.IsTemp()), e.IsTemp()))
+			}
+			if errors.Is(m.SendError(), &mail.SendError{Reason: e.Reason + 1}) {
+				run.APIProblems = append(run.APIProblems, fmt.Sprintf("message %d: errors.Is matches another reason", i))
+			}
+		} else if m.SendErrorIsTemp() {
+			run.APIProblems = append(run.APIProblems, fmt.Sprintf("message %d: SendErrorIsTemp() without a SendError", i))
 		}
 		if !sc.Msgs[i].RenderFail {
 			var b bytes.Buffer
